@@ -316,11 +316,11 @@ def _rand_case(rng, length, bad=False):
     ins = [c["id"] for c in chans if c["panel"] == "in"]
     outs = [c["id"] for c in chans if c["panel"] == "out"]
     src_outs = [nodes[j]["outs"][0] for j in range(3)]
-    runnable = [n["id"] for n in nodes if n["spec"] in ("C3", "C3T")]
     cons_ins = [c for n in nodes if n["spec"] in ("C3", "C3T", "MU", "MM", "M3") for c in n["ins"]]
     donor = 7  # the second free-standing C3 (node ids: 0,1,2 sources, 3 C3, 4 C3T, 5 MU, 6 MU.c, 7 C3, 8 MM, ...)
     assert nodes[donor]["spec"] == "C3" and nodes[donor]["path"] == (6,)
     no_conn = set(nodes[donor]["ins"] + nodes[donor]["outs"])
+    runnable = [n["id"] for n in nodes if n["spec"] in ("C3", "C3T") and n["id"] != donor]
     ops = []
 
     def val():
@@ -372,7 +372,7 @@ def _rand_case(rng, length, bad=False):
             a = rng.choice([c for c in cons_ins if c not in no_conn])
             ops.append(["disconnect", a, rng.choice(src_outs)])
         elif r < 0.6:
-            n = rng.choice(runnable + [6])
+            n = rng.choice(runnable)
             kw, pos = kwargs(n)
             ops.append(["run", n, kw, pos])
         elif r < 0.67:
@@ -396,7 +396,7 @@ def _rand_case(rng, length, bad=False):
             dst = rng.choice([3, 4, 6, 0])
             ops.append(["copyio", dst, donor, rng.random() < 0.5])
         elif r < 0.97:
-            n = rng.choice(runnable + [6])
+            n = rng.choice(runnable)
             ops.append(["flag", n, int(rng.random() < 0.4), int(rng.random() < 0.4)])
         else:
             c = rng.choice(nodes[donor]["ins"])
@@ -408,7 +408,9 @@ def gen_cases(rng, tier):
     prod = _prod_points()
     path = _path_points()
     if tier == "quick":
-        pidx = sorted(rng.sample(range(len(prod)), 1000))
+        small = [i for i, pt in enumerate(prod) if pt[0] <= 2]
+        big = [i for i, pt in enumerate(prod) if pt[0] > 2]
+        pidx = small + sorted(rng.sample(big, 900))
         qidx = sorted(rng.sample(range(len(path)), 260))
         n_rand, n_bad = 260, 60
     else:
@@ -521,12 +523,14 @@ def run_impl(case):
         for lab in n["path"][1:]:
             o = o.children[lab]
         nobj.append(o)
+    for n, o in zip(nodes, nobj):
+        spec = SPECS[n["spec"]]
+        assert o.inputs.labels == [lab for lab, _h in spec[0]], f"layout drift (inputs of {n})"
+        assert o.outputs.labels == [lab for lab, _h in spec[1]], f"layout drift (outputs of {n})"
     cobj = []
     for c in chans:
         o = nobj[c["node"]]
-        panel = o.inputs if c["panel"] == "in" else o.outputs
-        assert panel.labels[[x for x in (nodes[c["node"]]["ins"] if c["panel"] == "in" else nodes[c["node"]]["outs"])].index(c["id"])] == c["label"], "layout drift"
-        cobj.append(panel[c["label"]])
+        cobj.append((o.inputs if c["panel"] == "in" else o.outputs)[c["label"]])
     index = {id(ch): i for i, ch in enumerate(cobj)}
     # the value links the layout predicts are the ones the library made
     seen_links = sorted((i, index.get(id(ch.value_receiver), -1)) for i, ch in enumerate(cobj)
@@ -810,7 +814,7 @@ def oracle(case, r):
                 want = [str(ev[i]) for i in node["ins"]]
                 if not res.startswith("invoked"):
                     fails.append(_f("gate-shut", k, op, f"every input ready, yet the run ended with {res}"))
-                elif [list(c) for c in new_calls] != [[n, want]] and [tuple(c) for c in new_calls] != [(n, want)]:
+                elif [(c[0], list(c[1])) for c in new_calls] != [(n, want)]:
                     fails.append(_f("fetch-priority", k, op,
                                     f"function received {new_calls}, the most recent upstreams holding data give {want}",
                                     conns=max(len(partners[i]) for i in node["ins"])))
